@@ -493,15 +493,14 @@ def bytes_contains(interp, container, item):
 
 def open_list_eq(interp, a, b):
     """== of lists of which at least one has an unknown prefix: element sequences as Seq(Int)."""
+    from . import loops
+    pre = a.prefix if a.prefix is not None else b.prefix
+    kind = "byteslist" if pre.sort() == loops.SeqSeqSort else "intlist"
+
     def seq_of(l):
-        parts = [] if l.prefix is None else [l.prefix]
-        for x in l._items:
-            if not is_intlike(x):
-                raise Unsupported("open list with non-integer elements")
-            parts.append(z3.Unit(ops.zi(as_int(x))))
-        if not parts:
-            return EMPTY_SEQ
-        return parts[0] if len(parts) == 1 else z3.Concat(*parts)
+        if kind == "intlist" and not all(is_intlike(x) for x in l._items):
+            raise Unsupported("open list of ints compared with a list holding other elements")
+        return loops.encode(interp, l, kind)
     if a.prefix is not None and b.prefix is not None and a.prefix.eq(b.prefix) and len(a._items) == len(b._items):
         return ops.b_and(*[interp.symtruth(interp.eq(x, y)) for x, y in zip(a._items, b._items)])
     return ops.mkbool(seq_of(a) == seq_of(b))
@@ -587,6 +586,12 @@ def binop(interp, op, a, b, inplace=False):
         return a * b
     if isinstance(a, PyList) and isinstance(b, PyList) and t is ast.Add and a.prefix is not None and b.prefix is None and not inplace:
         return PyList(a._items + b._items, a.prefix)
+    if isinstance(a, PyList) and isinstance(b, PyList) and t is ast.Add and b.prefix is not None and not inplace:
+        # concatenation with an open right operand: the whole result becomes one sequence term
+        from . import loops
+        kind = "byteslist" if b.prefix.sort() == loops.SeqSeqSort else "intlist"
+        ta, tb = loops.encode(interp, a, kind), loops.encode(interp, b, kind)
+        return PyList([], prefix=z3.Concat(ta, tb))
     if isinstance(a, PyList) and isinstance(b, PyList) and t is ast.Add:
         if inplace:
             a.items.extend(b.items)
@@ -741,4 +746,5 @@ def class_attr(interp, cls, name):
 
 
 from .builtins_methods import value_attr  # noqa: E402
+from . import builtins_methods as value_attr_mod  # noqa: E402
 from .builtins_funcs import make_builtins, stub_module, instantiate_special, finish_enum  # noqa: E402
